@@ -63,9 +63,14 @@ struct Outcome {
 
 /// one execution: read `reads` packets from the stream
 fn execute(ctx: &mut Ctx, stream: &[u8], eof_at: Option<usize>, chunking: Chunking, reads: usize) -> Outcome {
+    execute_ex(ctx, stream, eof_at, false, chunking, reads)
+}
+
+fn execute_ex(ctx: &mut Ctx, stream: &[u8], eof_at: Option<usize>, reset: bool, chunking: Chunking, reads: usize) -> Outcome {
     let sh: Sh = Rc::new(RefCell::new(std::mem::replace(ctx, Ctx::new(vec![], vec![], 0))));
     let s = Scripted::new(sh.clone(), stream.to_vec(), chunking);
     s.st.borrow_mut().eof_at = eof_at;
+    s.st.borrow_mut().fail_instead_of_eof = reset;
     let mut out = Outcome { results: vec![], consumed_after: vec![], blocked: false };
     {
         let mut tr = PacketTransport { source: s.clone() };
@@ -106,12 +111,20 @@ fn execute(ctx: &mut Ctx, stream: &[u8], eof_at: Option<usize>, chunking: Chunki
 }
 
 fn check_stream(name: &str, pkts: &[Vec<u8>], chunking: Chunking, budget: u32, eof: bool, acc: &mut Acc) {
+    check_stream_ex(name, pkts, chunking, budget, eof, false, acc);
+    if eof {
+        // the connection fails with an I/O error instead of ending cleanly
+        check_stream_ex(name, pkts, chunking, 0, true, true, acc);
+    }
+}
+
+fn check_stream_ex(name: &str, pkts: &[Vec<u8>], chunking: Chunking, budget: u32, eof: bool, reset: bool, acc: &mut Acc) {
     let stream: Vec<u8> = pkts.concat();
     let eofs: Vec<Option<usize>> = if eof { (0..=stream.len()).map(Some).collect() } else { vec![None] };
     for eof_at in eofs {
         let st = dbx::explore(budget, 50_000_000, |ctx| {
             let reads = pkts.len() + if eof_at.is_some() { 1 } else { 0 };
-            let o = execute(ctx, &stream, eof_at, chunking, reads);
+            let o = execute_ex(ctx, &stream, eof_at, reset, chunking, reads);
             acc.count("executions", 1);
             // expectation
             let limit = eof_at.unwrap_or(stream.len());
@@ -149,11 +162,11 @@ fn check_stream(name: &str, pkts: &[Vec<u8>], chunking: Chunking, budget: u32, e
             }
             if !problems.is_empty() {
                 let choices = ctx.choices();
-                let key = format!("c04/{name}/eof={eof_at:?}/choices={:?}", choices);
+                let key = format!("c04/{name}/eof={eof_at:?}/reset={reset}/choices={:?}", choices);
                 let mut v = viol(
                     key,
                     format!(
-                        "stream {name} ({} bytes: {}), end of stream at {eof_at:?}, read-split choices {choices:?}\n{}",
+                        "stream {name} ({} bytes: {}), end of stream at {eof_at:?} (as I/O error: {reset}), read-split choices {choices:?}\n{}",
                         stream.len(),
                         hex_short(&stream),
                         problems.join("\n")
@@ -267,7 +280,7 @@ pub fn run(run: &RunInfo) -> Summary {
         (0..=65535).collect()
     } else {
         let mut v: Vec<usize> = (0..=700).collect();
-        v.extend((0..=65535usize).filter(|n| n % 251 == 0));
+        v.extend((0..=65535usize).filter(|n| n % 251 == 0 || n & 0xff == 0xff || n & 0xff == 0 || n & 0xff == 1));
         v.extend(65000..=65535);
         v.sort();
         v.dedup();
@@ -323,7 +336,7 @@ pub fn run(run: &RunInfo) -> Summary {
         transitions: acc.get("transitions") + acc.get("header_cases"),
         traces_validated: execs,
         distinct_nontrivial: acc.set_len("outcomes") + acc.get("header_agreed"),
-        rule: format!("all sequences of k<=3 packets over a 9-packet alphabet (empty body, 1-2 byte bodies, bodies of 253/254/255/256/300 bytes): for streams of <=12 (thorough: 16) bytes every partition into read() results with a Pending+wake before any subset of polls; for longer streams every placement of <= {budget} deviations (1-byte, half, all-but-one read, Pending); end of stream at every byte offset; writer/reader header agreement for {} body lengths with a sentinel packet behind. distinct_nontrivial = distinct (stream, end position, result list) outcomes + agreeing body lengths", lens.len()),
+        rule: format!("all sequences of k<=3 packets over a 9-packet alphabet (empty body, 1-2 byte bodies, bodies of 253/254/255/256/300 bytes): for streams of <=12 (thorough: 16) bytes every partition into read() results with a Pending+wake before any subset of polls; for longer streams every placement of <= {budget} deviations (1-byte, half, all-but-one read, Pending); end of stream, and a connection reset, at every byte offset; writer/reader header agreement for {} body lengths with a sentinel packet behind. distinct_nontrivial = distinct (stream, end position, result list) outcomes + agreeing body lengths", lens.len()),
         exhaustive: true,
         required_witnesses: vec![
             "all chunkings of a short stream explored".into(),
